@@ -578,6 +578,56 @@ def datetime_lte_datetime(dt1, dt2):
     return dt1 <= dt2
 
 
+@specs.name('*equal')
+@specs.parameter('dt1', yaqltypes.DateTime())
+@specs.parameter('dt2', yaqltypes.DateTime())
+def datetime_eq_datetime(dt1, dt2):
+    """:yaql:operator =
+
+    Returns true if left and right datetimes are the same moment of time,
+    false otherwise. A datetime without time zone is taken as UTC, as it is
+    by the ordering operators.
+
+    :signature: left = right
+    :arg left: left datetime object
+    :argType left: datetime object
+    :arg right: right datetime object
+    :argType right: datetime object
+    :returnType: boolean
+
+    .. code::
+
+        yaql> datetime(2011, 11, 11) = datetime(2011, 11, 11)
+        true
+    """
+    return dt1 == dt2
+
+
+@specs.name('*not_equal')
+@specs.parameter('dt1', yaqltypes.DateTime())
+@specs.parameter('dt2', yaqltypes.DateTime())
+def datetime_neq_datetime(dt1, dt2):
+    """:yaql:operator !=
+
+    Returns true if left and right datetimes are different moments of time,
+    false otherwise. A datetime without time zone is taken as UTC, as it is
+    by the ordering operators.
+
+    :signature: left != right
+    :arg left: left datetime object
+    :argType left: datetime object
+    :arg right: right datetime object
+    :argType right: datetime object
+    :returnType: boolean
+
+    .. code::
+
+        yaql> datetime(2011, 11, 11) != datetime(2011, 11, 12)
+        true
+    """
+    return dt1 != dt2
+
+
 @specs.name('#operator_>')
 @specs.parameter('ts1', TIMESPAN_TYPE)
 @specs.parameter('ts2', TIMESPAN_TYPE)
@@ -1180,6 +1230,7 @@ def register(context):
         timespan_plus_timespan, timespan_minus_timespan,
         datetime_gt_datetime, datetime_gte_datetime,
         datetime_lt_datetime, datetime_lte_datetime,
+        datetime_eq_datetime, datetime_neq_datetime,
         timespan_gt_timespan, timespan_gte_timespan,
         timespan_lt_timespan, timespan_lte_timespan,
         negative_timespan, positive_timespan,
